@@ -242,6 +242,9 @@ pub struct Explorer<'a> {
     pub close_rotations: bool,
     /// VERIF_SEED: only rotates the order in which work is handed out
     pub seed: u64,
+    /// keep the representative histories of the last level too (needed when per-state passes
+    /// are to run on every state up to the full depth)
+    pub store_last: bool,
 }
 
 impl<'a> Explorer<'a> {
@@ -394,7 +397,7 @@ impl<'a> Explorer<'a> {
                                         let mut h2 = hist.clone();
                                         h2.push(op);
                                         sp += self.state_probe(&h2);
-                                        if !last {
+                                        if !last || self.store_last {
                                             local_next.push(h2);
                                         }
                                     }
@@ -435,7 +438,7 @@ impl<'a> Explorer<'a> {
                 let k = (self.seed as usize) % nx.len();
                 nx.rotate_left(k);
             }
-            if !last {
+            if !last || self.store_last {
                 res.stored.push(nx.clone());
             }
             frontier = nx;
